@@ -191,7 +191,50 @@ def public_path(spec, rng, acc):
             # encode side (encodable definitions): message -> identifier bytes -> reference parse
             if d.encodable and outs.get("actisense") is not None:
                 import copy as _copy
-                m = _copy.deepcopy(outs["actisense"])          # (the decoded message itself is kept untouched and re-read later)
+                import dataclasses as _dc
+                import json as _json
+                # the message to send is a re-addressed copy of a RECEIVED one (whichever front-end it came through), made
+                # in one of the ways an application makes such a copy. (The decoded message itself is kept untouched and
+                # re-read later.)  prio/src/dst2 differ from what the original carried.
+                origin = [k_ for k_ in ("actisense", "ebyte", "usb", "yd", "ebyte_fast") if outs.get(k_) is not None]
+                base_m = outs[origin[acc.evaluations % len(origin)]]
+                p2, s2, d2 = (prio + 3) % 8, (src + 101) % 254, (dst + 57) % 254
+                way = ("deepcopy+assign", "dataclasses.replace", "json-edited", "constructor-from-vars", "copy+assign")[(acc.evaluations // 3) % 5]
+                try:
+                    if way == "deepcopy+assign":
+                        m = _copy.deepcopy(base_m)
+                        m.priority, m.source, m.destination = p2, s2, d2
+                    elif way == "copy+assign":
+                        m = _copy.copy(base_m)
+                        m.destination, m.source, m.priority = d2, s2, p2
+                    elif way == "dataclasses.replace":
+                        m = _dc.replace(base_m, priority=p2, source=s2, destination=d2)
+                    elif way == "constructor-from-vars":
+                        m = NMEA2000Message(**{**vars(base_m), "priority": p2, "source": s2, "destination": d2})
+                    else:
+                        j_ = _json.loads(base_m.to_json())
+                        j_["priority"], j_["source"], j_["destination"] = p2, s2, d2
+                        m = NMEA2000Message.from_json(_json.dumps(j_))
+                except Exception:  # noqa: BLE001
+                    acc.count("copy_failed_not_judged_here")
+                    m = None
+                acc.cover("ways_of_readdressing_a_received_message", way)
+                if m is not None:
+                    try:
+                        ids2 = {"ebyte": {int.from_bytes(p[1:5], "big") for p in enc.encode_ebyte(m)},
+                                "usb": {int.from_bytes(p[5:9], "little") for p in enc.encode_usb(m)},
+                                "yd": {int(p.split()[0], 16) for p in enc.encode_yacht_devices(m)}}
+                    except Exception:  # noqa: BLE001
+                        ids2 = {}
+                        acc.count("encode_failed_not_judged_here")
+                    ident2 = wire.can_id(p2, d.pgn, s2, d2)
+                    for fmt, s_ in ids2.items():
+                        acc.count("encoded_identifiers_checked")
+                        acc.count("readdressed_copies_of_received_messages_encoded")
+                        if s_ != {ident2}:
+                            acc.violation("encoded-identifier-mismatch", f"{fmt}: a copy ({way}) of a received message re-addressed to {(p2, d.pgn, s2, d2)} is encoded as "
+                                          f"{[hex(x) for x in s_]}, expected {ident2:#x}", {"kind": "public_encode", "fmt": fmt, "definition": d.id, "prio": p2, "src": s2, "dst": d2, "way": way})
+                m = _copy.deepcopy(outs["actisense"])
                 m.priority, m.source, m.destination = prio, src, dst     # non-canonical for PDU2 when dst != 255
                 try:
                     eb = enc.encode_ebyte(m)
